@@ -100,4 +100,18 @@ PROPS = {
                    "conclusion needs the rebuild = canonical-trie refinement, decided per run by correspondence + ground-truth oracle",
         "assumptions": [],
     },
+    "C06": {
+        "coq_deps": ["DirSound", "HashingBinding"],
+        "steps": [{"sub": "advdir", "quick": [0], "thorough": [1]}],
+        "rule": "real directories (both configurations) over multi-epoch histories with a label updated in every epoch (versions crossing powers of two); a server holding key and tree assembles: every older version with every ancestor as anchor of the freshness proof; wrong value (with and without recomputed nonce), epoch +-1, version+1 on the same leaves, version beyond the epoch, a current epoch below the version, swapped existence/marker/freshness parts, bit-flipped and truncated VRF proofs, another label's proof or leaf, the honest proof against another epoch's root; histories with the newest 1-2 entries dropped (markers recomputed consistently, forged absences at every anchor, or markers unchanged), oldest dropped (complete / most-recent-n / n-1), reordered, duplicated, removed middle entry, exchanged or altered epochs, replaced values (with and without nonce), tombstone substitution in both modes, version 1 as tombstone with an earlier epoch (K2), omitted / surplus / swapped marker proofs, missing previous-version proofs, most-recent parameters below/equal/above the number of versions; plus trees built through Azks with the superseded version retired in time, one epoch late, or never; every VRF verification is evaluated by the implementation's primitive (vchk table), every verdict and result recomputed by the extracted model verifier; accepted => result must equal the truth table",
+        "assumptions": ["VrfUnique (a verifying VRF proof's output is the function value) is a premise of the theorem; collision resistance appears as the explicit disjunct Bad",
+                        "the honest tree is described by what it holds at the label's VRF labels (premises tree_fresh / tree_stale), established for the code by the C01 state correspondence"],
+    },
+    "C07": {
+        "coq_deps": ["DirSound", "HashingBinding"],
+        "steps": [{"sub": "advdir", "quick": [0], "thorough": [1]}],
+        "rule": "real directories (both configurations) over multi-epoch histories with a label updated in every epoch (versions crossing powers of two); a server holding key and tree assembles: every older version with every ancestor as anchor of the freshness proof; wrong value (with and without recomputed nonce), epoch +-1, version+1 on the same leaves, version beyond the epoch, a current epoch below the version, swapped existence/marker/freshness parts, bit-flipped and truncated VRF proofs, another label's proof or leaf, the honest proof against another epoch's root; histories with the newest 1-2 entries dropped (markers recomputed consistently, forged absences at every anchor, or markers unchanged), oldest dropped (complete / most-recent-n / n-1), reordered, duplicated, removed middle entry, exchanged or altered epochs, replaced values (with and without nonce), tombstone substitution in both modes, version 1 as tombstone with an earlier epoch (K2), omitted / surplus / swapped marker proofs, missing previous-version proofs, most-recent parameters below/equal/above the number of versions; plus trees built through Azks with the superseded version retired in time, one epoch late, or never; every VRF verification is evaluated by the implementation's primitive (vchk table), every verdict and result recomputed by the extracted model verifier; accepted => result must equal the truth table",
+        "partial": "proved for Default mode with Complete parameter (exact account) and per-entry truth for every parameter; MostRecent-N exactness, AllowMissingValues outside K2 and the late-stale-marker statement are decided by correspondence + oracle",
+        "assumptions": ["as C06"],
+    },
 }
